@@ -185,11 +185,14 @@ struct Ck<'a> {
     evals: Cell<u64>,
     nontrivial: Cell<u64>,
     stored_zero: Cell<u64>,
+    /// informational (not part of the verdict): the commuting squares of the Schur diagram
+    chain_checked: Cell<u64>,
+    chain_failed: Cell<u64>,
 }
 
 impl<'a> Ck<'a> {
     fn new(run: &'a Run, ring: &'static str) -> Self {
-        Ck { run, ring, evals: Cell::new(0), nontrivial: Cell::new(0), stored_zero: Cell::new(0) }
+        Ck { run, ring, evals: Cell::new(0), nontrivial: Cell::new(0), stored_zero: Cell::new(0), chain_checked: Cell::new(0), chain_failed: Cell::new(0) }
     }
     fn eval(&self, nontrivial: bool, stored_zero: bool) {
         self.evals.set(self.evals.get() + 1);
@@ -210,6 +213,10 @@ impl<'a> Drop for Ck<'a> {
         self.run.add("evaluations", self.evals.get());
         self.run.add("inputs_nontrivial", self.nontrivial.get());
         self.run.add("inputs_with_stored_zero", self.stored_zero.get());
+        if self.chain_checked.get() > 0 {
+            self.run.add("schur_commuting_squares_checked", self.chain_checked.get());
+            self.run.add("schur_commuting_squares_failed", self.chain_failed.get());
+        }
     }
 }
 
@@ -587,6 +594,12 @@ where
                     if !ft.mul(&bt).is_id() {
                         return Err(format!("target transform: F*B = {} is not the identity", ft.mul(&bt).show()));
                     }
+                    // Not stated by the property, recorded only: F_tgt*M = S*F_src and M*B_src = B_tgt*S
+                    // (the two identities above hold as soon as ONE of F_tgt, B_src is right).
+                    ck.chain_checked.set(ck.chain_checked.get() + 1);
+                    if ft.mul(&dm) != s_exp.mul(&fs) || dm.mul(&bs) != bt.mul(&s_exp) {
+                        ck.chain_failed.set(ck.chain_failed.get() + 1);
+                    }
                     Ok(())
                 }
                 (s, u) => Err(format!("with_trans={with_trans} but trans_src is {} and trans_tgt is {}", if s.is_some() { "Some" } else { "None" }, if u.is_some() { "Some" } else { "None" })),
@@ -826,6 +839,9 @@ fn main() {
     // let schedules = schedule_part(&run);      // <-- to be added: same kernels under the explorer
     // ------------------------------------------------------------------------------------------
 
+    if run.get("schur_commuting_squares_failed") > 0 {
+        println!("NOTE property=C12 (not a verdict): {} of {} Schur transfer-map pairs violate F_tgt*M = S*F_src / M*B_src = B_tgt*S", run.get("schur_commuting_squares_failed"), run.get("schur_commuting_squares_checked"));
+    }
     if run.get("inputs_with_stored_zero") == 0 {
         run.cap("no operand with an explicitly stored zero could be constructed");
     }
@@ -835,6 +851,11 @@ fn main() {
         "inputs_with_stored_zero": run.get("inputs_with_stored_zero"),
         "rule": "one evaluation = one call of a kernel (solve_triangular, _left, _vec, inv_triangular, Schur::from_partial_triangular with/without transforms, dir_sum_decomp) on one input tuple, judged with reference arithmetic; inputs are enumerated completely as cell assignments (not stored / stored 0 / values) within the bounds listed under 'sequential', hence pairwise distinct; nontrivial = size > 0 and every right-hand-side column non-zero (solves), 0 < r < min(m,n) with B, C non-zero (Schur), a matrix that really splits (decomposition)",
         "sequential": sequential,
+        "informational_not_in_verdict": {
+            "schur_commuting_squares_checked": run.get("schur_commuting_squares_checked"),
+            "schur_commuting_squares_failed": run.get("schur_commuting_squares_failed"),
+            "what": "F_tgt*M = S*F_src and M*B_src = B_tgt*S; the property only states F_tgt*M*B_src = S and F*B = I, which a sign error in exactly one of F_tgt / B_src does not violate",
+        },
         "exhaustive": true,
     });
     run.finish(
